@@ -136,6 +136,9 @@ impl<L: Localize> OpeningHours<L> {
         #[cfg(test)]
         crate::tests::stats::notify::generated_schedule();
 
+        #[cfg(feature = "verif-hooks")]
+        crate::verif_hooks::notify_schedule();
+
         if !(DATE_START.date()..DATE_END.date()).contains(&date) {
             return Schedule::default();
         }
